@@ -85,7 +85,39 @@ static bool probe(const std::string & comp, const std::string & kind, const F::F
     return crashed;
 }
 
+// FasterTrie with an empty key (a partial assignment naming no factor; Trie stores it): run in a forked child.
+// `C20 fprobe <component> <kind> crash|ok|<exception> <F> <what>`
+static bool g_ftEmptyCrashes = false;
+static bool fprobe(const std::string & comp, const std::string & what) {
+    std::fflush(stdout); std::fflush(stderr);
+    int fds[2]; if (pipe(fds) != 0) return true;
+    pid_t pid = fork();
+    if (pid == 0) {
+        int dn = open("/dev/null", O_WRONLY);
+        if (dn >= 0) { dup2(dn, 2); dup2(dn, 1); }
+        close(fds[0]);
+        std::string out = "ok";
+        try {
+            if (what == "insert") { F::FasterTrie t(F::Factors{2, 2}); t.insert(PF{}); }
+            else if (what == "erase") { F::FasterTrie t(F::Factors{2, 2}); t.insert(PF{{0}, {1}}); t.erase(0, PF{}); }
+            else { F::FilterMap<size_t> fm(F::Factors{2, 2}); fm.emplace(PF{}, (size_t)7); }
+        } catch (const std::exception & e) { out = errClass(e); }
+        if (write(fds[1], out.c_str(), out.size()) < 0) _exit(3);
+        _exit(0);
+    }
+    close(fds[1]);
+    char buf[128]; ssize_t n = read(fds[0], buf, sizeof buf - 1); close(fds[0]);
+    int st = 0; bool crashed = true;
+    if (pid > 0 && waitpid(pid, &st, 0) == pid) crashed = !(WIFEXITED(st) && WEXITSTATUS(st) == 0);
+    std::string out = crashed || n <= 0 ? "crash" : std::string(buf, (size_t)n);
+    Line l; l << "C20" << "fprobe" << comp << "empty_key_read" << out; l.nats(F::Factors{2, 2}); l << what;
+    g_probeLines.push_back(l.os.str());
+    return out == "crash";
+}
+
 static void run_probes() {
+    { bool a = fprobe("FasterTrie::insert", "insert"), b = fprobe("FasterTrie::erase", "erase"), c = fprobe("FilterMap<FasterTrie>::emplace", "emplace");
+      g_ftEmptyCrashes = a || b || c; }
     PF k01{{0}, {1}}, k00{{0}, {0}};
     // #9: first factor is not the smallest: size() / getAllIds() index the smaller factor's lists with the first factor's count
     g_sizeCrashes = probe("Trie::size", "oob_read", {3, 2}, {{"ins", 0, k01}, {"siz"}});
@@ -273,6 +305,23 @@ static void ftrie_case(Rng & rng, const F::Factors & sp, int maxOps) {
     int nops = (int)rng.range(8, maxOps);
     for (int o = 0; o < nops; ++o) {
         unsigned r = (unsigned)rng.below(106);
+        if (o >= 3 && r >= 100 && rng.coin(1, 4)) {
+            // an empty key: rejected (or a no-op for erase) once FasterTrie guards it; left out while the probe shows it crashes
+            if (g_ftEmptyCrashes) { std::printf("#stat avoided_ftrie_empty_key 1\n"); continue; }
+            if (rng.coin()) {
+                std::string out = "ok"; size_t id = 0;
+                try { id = t.insert(PF{}); } catch (const std::exception & e) { out = errClass(e); }
+                l << "ine" << out << id;
+                if (out == "ok") { issued.push_back({id, PF{}, true}); next = std::max(next, id + 1); }
+            } else {
+                size_t id = next ? rng.below(next) : 0;
+                std::string out = "ok";
+                try { t.erase(id, PF{}); } catch (const std::exception & e) { out = errClass(e); }
+                l << "ere" << id << out;
+            }
+            std::printf("#stat ftrie_empty_key_op 1\n");
+            continue;
+        }
         if (o >= 3 && r >= 100) {
             if (r < 102) {
                 F::FasterTrie c(t); t = std::move(c); l << "cpy";
